@@ -27,6 +27,7 @@ import (
 	"sort"
 	"strconv"
 	"strings"
+	"sync"
 
 	"github.com/hneemann/parser2/funcGen"
 	"github.com/hneemann/parser2/listMap"
@@ -623,8 +624,29 @@ func diffDecoded(want, got any, sink string) (string, bool) {
 func c18XMLCase(t *XT, id int, sum *Summary, cw *CaseWriter) {
 	built := t.Build()
 	out, err, pan := exportXML(built)
+	c18XMLCheck(t, built, out, err, pan, nil, id, sum, cw)
+}
+
+// c18Hist: the document is item Pos of a history of exports and is looked at only after the last export;
+// Snap is a copy taken when the exporter returned it
+type c18Hist struct {
+	Seq        []c18Repro
+	Pos        int
+	Concurrent int
+	Snap       string
+}
+
+func (h *c18Hist) repro() map[string]any {
+	return map[string]any{"kind": "history", "history": h.Seq, "concurrent": h.Concurrent}
+}
+
+func c18XMLCheck(t *XT, built value.Value, out []byte, err error, pan any, hist *c18Hist, id int, sum *Summary, cw *CaseWriter) {
 	keys, texts := t.strings()
 	human := map[string]any{"kind": "xml", "value": t.Human(), "exported": string(out), "repro": map[string]any{"kind": "xml", "tree": t}}
+	if hist != nil {
+		human["repro"] = hist.repro()
+		human["history"] = fmt.Sprintf("document %d of a history of %d exports, looked at after the last export", hist.Pos+1, len(hist.Seq))
+	}
 	sum.Cases[fmt.Sprint(id)] = human
 	viol := func(what, sig, exp, obs string) {
 		human["signature"] = sig
@@ -681,6 +703,11 @@ func c18XMLCase(t *XT, id int, sum *Summary, cw *CaseWriter) {
 		goTree = "Some (" + forest[0].Coq() + ")"
 	}
 	cw.Add(fmt.Sprintf("KXml %d (%s) %s (%s)", id, t.CoqXVal(built), CoqBytesAsRunes(out), goTree))
+	if hist != nil && string(out) != hist.Snap {
+		human["exported_when_returned"] = hist.Snap
+		viol("the document an earlier export returned was changed by a later export", "xml:history:returned-document-changed-by-later-export", hist.Snap, string(out))
+		return
+	}
 
 	exp := t.expectXML()
 	expS, _ := json.Marshal(exp)
@@ -1411,9 +1438,163 @@ func (t *XT) coqHVal() (string, bool) {
 // ---------------------------------------------------------------- command
 
 type c18Repro struct {
-	Kind string    `json:"kind"`
-	Tree *XT       `json:"tree"`
-	HTML *htmlCase `json:"html"`
+	Kind       string     `json:"kind"`
+	Tree       *XT        `json:"tree,omitempty"`
+	HTML       *htmlCase  `json:"html,omitempty"`
+	History    []c18Repro `json:"history,omitempty"`
+	Concurrent int        `json:"concurrent,omitempty"`
+}
+
+// a ToHtml result of a history, looked at after the last export
+func c18HTMLHistCheck(hc *htmlCase, real htmlRun, hist *c18Hist, id int, sum *Summary, cw *CaseWriter) {
+	sum.Evaluations++
+	sum.Count("kind", "html-history")
+	human := map[string]any{"kind": "html", "value": hc.Tree.Human(), "maxListSize": hc.MaxList, "inlineStyle": hc.Inline, "exported": real.Res,
+		"repro": hist.repro(), "signature": "html:spec",
+		"history": fmt.Sprintf("document %d of a history of %d exports, looked at after the last export", hist.Pos+1, len(hist.Seq))}
+	sum.Cases[fmt.Sprint(id)] = human
+	viol := func(what, sig, exp, obs string) {
+		human["signature"] = "html:" + sig
+		sum.GoViolations = append(sum.GoViolations, GoViolation{CaseID: id, What: what, Sig: "html:" + sig, Human: human, Expected: exp, Observed: obs})
+	}
+	if real.Panic != nil {
+		viol(fmt.Sprintf("ToHtml panics: %v", real.Panic), "panic", "an error value", "panic")
+		return
+	}
+	if real.Err != nil {
+		if m := hc.coqModelInput(); m != "None" {
+			cw.Add(fmt.Sprintf("KHtmlErr %d %s", id, strings.TrimSuffix(strings.TrimPrefix(m, "(Some "), ")")))
+		}
+		return
+	}
+	forest, perr := xmlForest([]byte(real.Res))
+	goForest := "None"
+	if perr == nil {
+		goForest = "Some " + coqForest(forest)
+	}
+	cw.Add(fmt.Sprintf("KHtml %d %s false %s (%s)", id, hc.coqModelInput(), CoqBytesAsRunes([]byte(real.Res)), goForest))
+	if real.Res != hist.Snap {
+		viol("the markup an earlier ToHtml returned was changed by a later export", "history:returned-document-changed-by-later-export", hist.Snap, real.Res)
+		return
+	}
+	if perr != nil {
+		viol("encoding/xml rejects the markup ToHtml produced: "+perr.Error(), "not-well-formed", "well-formed markup", real.Res)
+	}
+}
+
+// c18RunHistory runs the exports one after the other (xml histories also spread over goroutines), keeps what each
+// returned without copying, and checks everything only after the last export
+func c18RunHistory(seq []c18Repro, concurrent int, id *int, sum *Summary, cw *CaseWriter) {
+	n := len(seq)
+	built := make([]value.Value, n)
+	for i, it := range seq {
+		if it.Kind == "html" {
+			built[i] = it.HTML.Tree.Build()
+		} else {
+			built[i] = it.Tree.Build()
+		}
+	}
+	type result struct {
+		out  []byte
+		err  error
+		pan  any
+		html htmlRun
+		snap string
+	}
+	res := make([]result, n)
+	one := func(i int) {
+		if seq[i].Kind == "html" {
+			hc := seq[i].HTML
+			res[i].html = runToHtml(built[i], hc.MaxList, nil, hc.Inline)
+			res[i].snap = strings.Clone(res[i].html.Res)
+		} else {
+			res[i].out, res[i].err, res[i].pan = exportXML(built[i])
+			res[i].snap = string(res[i].out)
+		}
+	}
+	if concurrent <= 1 {
+		for i := range seq {
+			one(i)
+		}
+	} else {
+		var wg sync.WaitGroup
+		for g := 0; g < concurrent; g++ {
+			wg.Add(1)
+			go func(g int) {
+				defer wg.Done()
+				for i := g; i < n; i += concurrent {
+					one(i)
+				}
+			}(g)
+		}
+		wg.Wait()
+	}
+	mode := "sequential"
+	if concurrent > 1 {
+		mode = "concurrent"
+	}
+	sum.Count("histories", fmt.Sprintf("%s:%s:%d", seq[0].Kind, mode, n))
+	for i, it := range seq {
+		*id++
+		h := &c18Hist{Seq: seq, Pos: i, Concurrent: concurrent, Snap: res[i].snap}
+		if it.Kind == "html" {
+			c18HTMLHistCheck(it.HTML, res[i].html, h, *id, sum, cw)
+		} else {
+			c18XMLCheck(it.Tree, built[i], res[i].out, res[i].err, res[i].pan, h, *id, sum, cw)
+		}
+	}
+}
+
+// histories of one kind with document sizes decreasing (0), increasing (1), equal (2) or in random order (3)
+func (r *Rng) genC18History(html bool, pattern int) []c18Repro {
+	k := 2 + r.Pick(5)
+	gen := func() c18Repro {
+		if html {
+			max := 1 + r.Pick(4)
+			return c18Repro{Kind: "html", HTML: &htmlCase{Tree: r.genHTMLTree(1+r.Pick(3), max), MaxList: max, Inline: r.Chance(0.6)}}
+		}
+		return c18Repro{Kind: "xml", Tree: r.genXMLTree(1+r.Pick(3), true)}
+	}
+	var seq []c18Repro
+	if pattern == 2 {
+		it := gen()
+		for i := 0; i < k; i++ {
+			seq = append(seq, it)
+		}
+		return seq
+	}
+	for i := 0; i < k; i++ {
+		seq = append(seq, gen())
+	}
+	if pattern < 2 {
+		size := func(it c18Repro) int {
+			if it.Kind == "html" {
+				return len(runToHtml(it.HTML.Tree.Build(), it.HTML.MaxList, nil, it.HTML.Inline).Res)
+			}
+			out, _, _ := exportXML(it.Tree.Build())
+			return len(out)
+		}
+		sizes := make(map[int]int)
+		for i, it := range seq {
+			sizes[i] = size(it)
+		}
+		idx := make([]int, len(seq))
+		for i := range idx {
+			idx[i] = i
+		}
+		sort.SliceStable(idx, func(a, b int) bool {
+			if pattern == 0 {
+				return sizes[idx[a]] > sizes[idx[b]]
+			}
+			return sizes[idx[a]] < sizes[idx[b]]
+		})
+		sorted := make([]c18Repro, len(seq))
+		for i, j := range idx {
+			sorted[i] = seq[j]
+		}
+		seq = sorted
+	}
+	return seq
 }
 
 func cmdC18(seed int64, tier, outDir string) {
@@ -1423,7 +1604,7 @@ func cmdC18(seed int64, tier, outDir string) {
 	}
 	r := NewRng(seed)
 	sum := NewSummary("C18", seed, tier)
-	sum.Rule = "xml: list/map trees (depth<=4, every list/map representation, Format/Link wrappers, File scalars, strings and keys of legal XML characters with markup pieces boosted: < > & ' \" ]]> comment/CDATA/entity look-alikes, blanks, =, CR LF TAB, leading/trailing blanks, reserved and non-name keys) through export.XML(); html: the same scalars plus http/https/host strings, lists and tables with lengths around maxListSize, maps, Format with string/map/table/closure styles, Cell/ColSpan, Link, File through export.ToHtml in both style modes. Non-trivial = (xml) at least one markup-significant character in a key AND in a text/attribute string, (html) such a character in a data string of a tree containing a Format, Link or File wrapper; distinct by output bytes"
+	sum.Rule = "xml: list/map trees (depth<=4, every list/map representation, Format/Link wrappers, File scalars, strings and keys of legal XML characters with markup pieces boosted: < > & ' \" ]]> comment/CDATA/entity look-alikes, blanks, =, CR LF TAB, leading/trailing blanks, reserved and non-name keys) through export.XML(); html: the same scalars plus http/https/host strings, lists and tables with lengths around maxListSize, maps, Format with string/map/table/closure styles, Cell/ColSpan, Link, File through export.ToHtml in both style modes. Non-trivial = (xml) at least one markup-significant character in a key AND in a text/attribute string, (html) such a character in a data string of a tree containing a Format, Link or File wrapper; distinct by output bytes; history mode: sequences of 2-6 XML exports / ToHtml calls on one goroutine (sizes decreasing, increasing, equal, random; XML also spread over 2-4 goroutines), every returned document kept without copying and checked only after the last export (byte-identical to what was returned, model bytes, well-formedness, format reader)"
 	cw := NewCaseWriter(outDir, "From P2 Require Import Base.Prelude Exp.Xml Exp.Html Run.C18Run.", "c18_case", "c18_id", "c18_im", "c18_is", 100)
 	id := 0
 	if optReplay != "" {
@@ -1431,7 +1612,10 @@ func cmdC18(seed int64, tier, outDir string) {
 		if err := json.Unmarshal(loadReplayCase(), &rp); err != nil {
 			fatal("replay case: %v", err)
 		}
-		if rp.Kind == "html" {
+		if rp.Kind == "history" {
+			hid := 0
+			c18RunHistory(rp.History, rp.Concurrent, &hid, sum, cw)
+		} else if rp.Kind == "html" {
 			c18HTMLCase(rp.HTML, 1, sum, cw)
 		} else {
 			c18XMLCase(rp.Tree, 1, sum, cw)
@@ -1520,6 +1704,26 @@ func cmdC18(seed int64, tier, outDir string) {
 			hc.Custom = "raw"
 		}
 		c18HTMLCase(hc, id, sum, cw)
+	}
+	// history mode: 2-6 exports on one goroutine (xml also spread over goroutines), all results kept and looked at
+	// only after the last export
+	bigX, smallX := c18Repro{Kind: "xml", Tree: xl(xs("aaaaaaaa"), xs("bbbbbbbb"), xs("cccccccc"))}, c18Repro{Kind: "xml", Tree: xl(xs("x"))}
+	bigH, smallH := c18Repro{Kind: "html", HTML: &htmlCase{Tree: xl(xs("aaaaaaaa"), xs("bbbbbbbb")), MaxList: 3, Inline: true}}, c18Repro{Kind: "html", HTML: &htmlCase{Tree: xs("x"), MaxList: 3, Inline: true}}
+	for _, seq := range [][]c18Repro{{bigX, smallX}, {smallX, bigX}, {bigX, bigX, bigX}, {bigH, smallH}, {smallH, bigH, bigH}, {bigX, smallH, smallX, bigH}} {
+		c18RunHistory(seq, 0, &id, sum, cw)
+	}
+	nhist := 24
+	if tier == "thorough" {
+		nhist = 1000
+	}
+	nhist *= optBoost
+	for h := 0; h < nhist; h++ {
+		html := h%3 == 2
+		conc := 0
+		if !html && h%8 == 7 {
+			conc = 2 + r.Pick(3)
+		}
+		c18RunHistory(r.genC18History(html, h%4), conc, &id, sum, cw)
 	}
 	cw.Flush()
 	sum.CaseFiles = cw.files
